@@ -7,7 +7,17 @@ for m in sorted(glob.glob(os.path.join(ROOT, 'seeded', '*', 'meta.json'))):
     d = json.load(open(m))
     needs = re.sub(r'\s+', ' ', d.get('needs_short') or d.get('needs', ''))[:260]
     rows.append(f"| `{os.path.basename(os.path.dirname(m))}` | {needs} | {d.get('caught_by', '?')} | {d.get('budget', '')} |")
-tail = open(os.path.join(ROOT, 'tools', 'design_tail.md')).read().replace('SEEDED_TABLE', '\n'.join(rows))
+mut = {}
+mp = os.path.join(ROOT, 'mutants', 'results.jsonl')
+if os.path.exists(mp):
+    for l in open(mp):
+        d = json.loads(l)
+        mut[d['mutant'], d['check']] = d       # the latest run wins
+mrows = []
+for (name, chk), d in mut.items():
+    first = re.sub(r'[|`]', ' ', (d['first'][0] if d['first'] else ''))[:150]
+    mrows.append(f"| `{name}` | {chk} quick | {'caught: ' + first if d['violations'] else 'not caught'} | {d['wall']} s |")
+tail = open(os.path.join(ROOT, 'tools', 'design_tail.md')).read().replace('SEEDED_TABLE', '\n'.join(rows)).replace('MUTANT_TABLE', '\n'.join(mrows))
 s = open(os.path.join(ROOT, 'DESIGN.md')).read()
 i = s.index('## 7. ')
 s = s[:i] + tail
